@@ -88,7 +88,14 @@ class Interp:
         # the delimiter of composite keys is a class attribute of the maps
         # (a program may set another one once and for all)
         self.S = self.cfg.get('split', '/')
-        d.ResourceMap.split_char = self.S
+        self.MapClass = d.ResourceMap
+        if self.S != '/' and self.cfg.get('split_own'):
+            # ... or the populated map is of a class with its own one
+            self.MapClass = type('OwnSplitMap', (d.ResourceMap,),
+                                 {'split_char': self.S})
+            self.probes['map_class_with_its_own_split_char'] += 1
+        else:
+            d.ResourceMap.split_char = self.S
         if self.S != '/':
             self.probes['other_split_char'] += 1
         _counter[0] += 1
@@ -142,11 +149,11 @@ class Interp:
             PreHandle.__bool__ = lambda self: False
 
         self.RecHandle, self.PreHandle = RecHandle, PreHandle
-        self.map = d.ResourceMap()
+        self.map = self.MapClass()
         self.pre = {}               # key -> object
         for key, kind in self.cfg.get('pre', []):
             key = key.replace('/', self.S)
-            o = PreHandle(key) if kind == 'h' else d.ResourceMap()
+            o = PreHandle(key) if kind == 'h' else self.MapClass()
             self.map[key] = o
             self.pre[key] = o
         c = self.cfg['ctor']
@@ -158,7 +165,20 @@ class Interp:
         ctor_root = self.root_dir
         if self.cfg.get('wrong_ctor_root'):
             ctor_root = os.path.join(self.root_dir, 'no-such-root')
+        self.cwd0 = None
+        if self.cfg.get('rel_root') and not self.cfg.get('wrong_ctor_root'):
+            # a relative root: it means what it means when the populator
+            # is applied, wherever the program was when it was built
+            self.cwd0 = os.getcwd()
+            elsewhere = os.path.join(os.path.dirname(self.root_dir),
+                                     'elsewhere')
+            os.makedirs(elsewhere, exist_ok=True)
+            os.chdir(elsewhere)
+            ctor_root = os.path.basename(self.root_dir)
+            self.probes['relative_root_and_chdir'] += 1
         self.pop = d.DirectoryResourcePopulator(ctor_root, **kw)
+        if self.cwd0 is not None:
+            os.chdir(os.path.dirname(self.root_dir))
         self.ctor_nest = True if c.get('nest') is None else c['nest']
         self.ctor_trim = False if c.get('trim') is None else c['trim']
         self.rule_objs = []
@@ -348,9 +368,9 @@ class Interp:
                 dns[:] = [n for n in dns if not n.startswith('.')]
                 for n in dns + fns:
                     if not n.startswith('.'):
-                        literal.add(os.path.normpath(os.path.join(dp, n)))
-            listed = {os.path.normpath(p) for p in listing} - {
-                os.path.normpath(full)}
+                        literal.add(os.path.abspath(os.path.join(dp, n)))
+            listed = {os.path.abspath(p) for p in listing} - {
+                os.path.abspath(full)}
             if listed != literal:
                 lost = sorted(os.path.relpath(p, self.root_dir)
                               for p in literal - listed)
@@ -492,6 +512,8 @@ class Interp:
 
     def cleanup(self):
         self.desper.ResourceMap.split_char = '/'
+        if getattr(self, 'cwd0', None) is not None:
+            os.chdir(self.cwd0)
         shutil.rmtree(self.root_dir, ignore_errors=True)
         d = os.path.dirname(self.root_dir)
         for _ in range(2 if self.cfg.get('odd_root') else 1):
@@ -616,6 +638,9 @@ def generate(prop, run_seed, tier='quick', tolerate=frozenset()):
                     'trim': crng.choice([None, True, False])}}
     if crng.random() < .06:
         cfg['split'] = crng.choice([':', '|', '>'])
+        cfg['split_own'] = crng.random() < .5
+    if crng.random() < .05 and not cfg['odd_root']:
+        cfg['rel_root'] = True
     ops = []
     for _ in range(crng.choice([1, 1, 2, 3, 4])):
         opts = {}
